@@ -235,12 +235,15 @@ _T5 = {
              'the linear zero), get_control_point_metrics(_aug), normalised_waveform'),
     'Sift': ('props/Prop_Tie_Sift.v: the loops of get_next_imf / sift / mask_sift, where the stop verdicts of the stages (continue flag, '
              'energy threshold, caps) are consumed'),
+    'Gcp': ('props/Prop_Tie_Gcp.v: get_control_points (whole body; the cycle iterator and the cf_* helpers as oracles): one row per item the '
+            'iterator yields, in its order; 5 / 6 columns per mode; which helper fills which column; None -> nan; an unknown mode returns only the '
+            'nan rows of the too-short cycles'),
     'Util': ('props/Prop_Tie_Util.v: phase_angle, direct_quadrature, phase_from_control_points, frequency_stats (a deprecated alias of '
              'frequency_transform), est_orthogonality (symmetric, unit diagonal for non-zero columns), apply_epochs, find_extrema_locked_epochs '
              '(new list-level models with shape / range / window laws)'),
 }
 for _pid, _names in {'C05': ['Parab'], 'C06': ['Parab', 'Sift'], 'C18': ['Parab'], 'C12': ['Wave'], 'C15': ['Wave', 'Cyciter', 'Cycgen'], 'C19': ['Wave'],
-                     'C16': ['Cyciter'], 'C14': ['Cyciter', 'Cycgen', 'Ctrl'], 'C09': ['Util']}.items():
+                     'C16': ['Cyciter'], 'C14': ['Cyciter', 'Cycgen', 'Ctrl', 'Gcp'], 'C09': ['Util']}.items():
     CLAIMED[_pid]['technique'] += ' + further TRANSLATION TIES re-checked on every run: ' + '; '.join(_T5[n] for n in _names)
 
 _PENDING = 'check under construction in this session (model/theorem/correspondence not all in place yet); not claimed until they are'
